@@ -332,7 +332,7 @@ func (c *Ctx) run() {
 		se := &SpecEnv{c: c, st: st, vars: fr.env, pkg: ct.Pkg, fr: fr}
 		for _, cl := range ct.Clauses {
 			if cl.Kind == "requires" {
-				st.assume(se.evalBool(cl.E))
+				st.assume(se.assumeF(cl.E))
 			}
 		}
 	}
@@ -354,9 +354,14 @@ func (c *Ctx) run() {
 			if cl.Kind != "ensures" || !c.tagSelected(cl.Tags) {
 				continue
 			}
-			g := se.evalBool(cl.E)
-			o := &Obligation{Func: c.fnKey(), Kind: "ensures", Name: c.fnKey() + "#ensures#" + cl.Hash(), Desc: "postcondition: " + normSpace(cl.Text), Goal: g, Lines: st2.lines.collect(), Clause: cl, Tags: cl.Tags, Path: strings.Join(st2.pathDesc, ",")}
-			c.obls = append(c.obls, o)
+			for _, cj := range se.splitConjuncts(cl.E, 0) {
+				g := se.prove(cj)
+				if g == "true" {
+					continue
+				}
+				o := &Obligation{Func: c.fnKey(), Kind: "ensures", Name: c.fnKey() + "#ensures#" + cl.Hash(), Desc: "postcondition: " + cj.String(), Goal: g, Lines: st2.lines.collect(), Clause: cl, Tags: cl.Tags, Path: strings.Join(st2.pathDesc, ",")}
+				c.obls = append(c.obls, o)
+			}
 		}
 	}
 	c.execBlock(fr, fn.Blocks[0], nil, st)
@@ -439,8 +444,8 @@ func (c *Ctx) finish(res *FuncResult) {
 					}
 				}()
 				dummy := &State{mem: map[string]string{}, bases: map[string][]memBase{}, heapTop: "h0", active: map[string]int{}, vars: map[string]varBinding{}, epoch: "0"}
-				se := &SpecEnv{c: c, st: dummy, vars: map[string]T{}, pkg: ax.Pkg}
-				axLines = append(axLines, "; axiom "+ax.Name+"\n(assert "+se.evalBool(ax.Body)+")")
+				se := &SpecEnv{c: c, st: dummy, vars: map[string]T{}, pkg: ax.Pkg, noFacts: true}
+				axLines = append(axLines, "; axiom "+ax.Name+"\n(assert "+se.assumeF(ax.Body)+")")
 				res.Axioms = append(res.Axioms, ax.Name)
 			}()
 		}
